@@ -252,6 +252,20 @@ def _chunk(groups, seed, textfile):
         if rec["ctx"] == "qcomment" and not rec["copt"]:
             # with comment interpolation switched off by option, '<!--?' is no marker: the comment is written as it stands
             allowed = [(w.replace("<!--x", "<!--?x", 1), ev) for w, ev in allowed]
+        # element text without any group, rendered once more as an implicitly translated message (option
+        # implicit_i18n_translate): a message without placeholders and without white space is its own translation, and
+        # '$$' is '$' there too
+        if (rec["ctx"] == "text" and not rec["stack"] and all(p["k"] != "brace" for p in rec["parts"])
+                and not any(p["k"] == "lit" and (p["c"] in ("sp", "nl", "cr") or (p["c"] == "x" and (ch["x"].strip() != ch["x"] or not ch["x"].strip())))
+                            for p in rec["parts"])):
+            try:
+                got_i = PageTemplate(src, enable_comment_interpolation=rec["copt"], implicit_i18n_translate=True)(e=e)
+            except Exception as ex:   # noqa
+                got_i = "EXC %s" % type(ex).__name__
+            n += 1
+            if not any(got_i == w for w, ev in allowed):
+                viol.append(("interpolation under implicit_i18n_translate (text without groups): source %r renders %r; the specification "
+                             "allows %s" % (src, got_i, [w for w, _ in allowed][:2]), dict(kind="interp-implicit-i18n", source=src, got=got_i)))
         if not any(got == w and calls == ev for w, ev in allowed):
             viol.append(("interpolation (%s, stack=%s, comment option=%s): source %r renders %r with evaluations %s; "
                          "the specification allows %s" % (rec["ctx"], rec["stack"], rec["copt"], src, got, calls, allowed[:2]),
